@@ -262,6 +262,11 @@ func init() {
 		d2, m2 := Differs(`[null,1e400]`, []stdjson.Number{})
 		return d1 || d2, m1 + " ; " + m2
 	}
+	known.DecWitnesses[known.DecStringTagUM] = func() (bool, string) {
+		return Differs(`{"A":""}`, struct {
+			A gen.IntUT `json:",string"`
+		}{})
+	}
 	known.DecWitnesses[known.DecStringTag] = func() (bool, string) {
 		return Differs(`{"A":false,"B":""}`, struct {
 			A bool
